@@ -355,7 +355,12 @@ func judge(prop, tier string, seed int, res *runResult, start time.Time, writeBa
 		ev.Coverage[k] = v
 	}
 	ev.Assumptions = trusted
-	if err := writeJSON(filepath.Join(verifDir, "evidence", prop+".json"), ev); err != nil {
+	evDir := filepath.Join(verifDir, "evidence")
+	if d := os.Getenv("GOVC_EVIDENCE_DIR"); d != "" {
+		evDir = d // development aid: keep experiments on modified trees out of the committed evidence
+		os.MkdirAll(d, 0o755)
+	}
+	if err := writeJSON(filepath.Join(evDir, prop+".json"), ev); err != nil {
 		fmt.Fprintf(os.Stderr, "govc: cannot write evidence: %v\n", err)
 		return 2
 	}
